@@ -1,4 +1,4 @@
-import VlsModel.Gen.FnHandler
+import VlsModel.Gen.FnHandlerAcc
 /-
 C10 — companion module: functions of `vls-protocol-signer/src/handler.rs` translated from the Rust source on every run
 (`translate/rs2lean.py`, target list `translate/fn_targets/Handler.b1012.json`; methods named like a field of their struct
@@ -13,7 +13,7 @@ that none of it can change signer state: each is a function of the handler value
 one field replaced, or `()`.
 -/
 namespace VlsModel.Props.C10Fn
-open VlsModel VlsModel.Gen.FnHandler
+open VlsModel VlsModel.Gen.FnHandlerAcc
 
 /-- **C10_fn_handler_accessors**: `node()`, `client_id()`, `dbid()` of the three handlers are the corresponding fields — the
     `Arc<Node>` an arm works on is the one the handler was built with, whatever was refused before. -/
